@@ -24,8 +24,8 @@ import (
 
 type c37Case struct {
 	Tree    ck.TreeDesc `json:"tree"`
-	Votes   []ev        `json:"votes"`   // vote bursts: A target selector among ALL checkpoint blocks (known or not), B source back, C slot mask
-	Yields  []int       `json:"yields"`  // per worker: Gosched calls before starting and between operations
+	Votes   []ev        `json:"votes"`  // vote bursts: A target selector among ALL checkpoint blocks (known or not), B source back, C slot mask
+	Yields  []int       `json:"yields"` // per worker: Gosched calls before starting and between operations
 	TxEvery int         `json:"tx_every"`
 }
 
